@@ -636,7 +636,43 @@ class C01(Suite):
         except Exception:
             again = b"produce-of-parse-failed"
         c["reproduced"] = again.hex()
+        c["edit"] = self.edit_msg_and_reproduce(data) if again != b"produce-of-parse-failed" else None
         return fields_line(fields) + "|" + hx(b) + "|" + hx(rest)
+
+    MSG_EDITABLE = {"priority": 8, "timeout_ticks": 8, "sequence": 16, "connection": 32}
+
+    def edit_msg_and_reproduce(self, data):
+        """the parsed frame has just been produced once; now change one plain integer field INSIDE a CPF item
+        (Unconnected Send priority / timeout ticks, connected data sequence, connection ID), produce the same
+        message object again and parse that: -> None, or [key, new value, value parsed back]"""
+        env = Env.get()
+        cpppo, parser = env.cpppo, env.parser
+        try:
+            e2 = data.enip
+            keys = sorted(k for k, v in e2.items() if ".CPF.item[" in k and k.rsplit(".", 1)[-1] in self.MSG_EDITABLE
+                          and k.rsplit(".", 2)[-2] in ("unconnected_send", "connection_data", "connection_ID")
+                          and isinstance(v, int) and not isinstance(v, bool))
+            if not keys:
+                return None
+            key = keys[len(keys) // 2]
+            new = (e2[key] + 1) % (1 << self.MSG_EDITABLE[key.rsplit(".", 1)[-1]])
+            e2[key] = new
+            e2.input = bytearray(parser.CIP.produce(e2))
+            again = bytes(parser.enip_encode(e2))
+            back = cpppo.dotdict()
+            source = cpppo.chainable(again)
+            with parser.enip_machine(context="enip") as m:
+                for _ in m.run(source=source, data=back):
+                    pass
+            src2 = cpppo.rememberable()
+            if "input" in back.enip:
+                src2.chain(back.enip.input)
+            with env.ucmm.parser as machine:
+                for _ in machine.run(source=src2, data=back.enip):
+                    pass
+            return ["enip." + key, new, back.enip.get(key)]
+        except Exception as exc:
+            return ["?", 0, "%s: %s" % (type(exc).__name__, str(exc)[:60])]
 
     def model_line(self, c):
         if "bytes" not in c:
